@@ -247,9 +247,17 @@ func firedSummary(res *Result) string {
 
 func oracleC01(c *Case, res *Result) []Violation {
 	var vs []Violation
+	ptag := ""
+	if len(res.Sim.Fired) > 0 {
+		fop := res.Sim.Fired[0].Match
+		if i := strings.IndexByte(fop, ' '); i > 0 {
+			fop = fop[:i]
+		}
+		ptag = "/" + res.Sim.Fired[0].Kind + "@" + fop
+	}
 	for _, t := range res.Txns {
 		if t.Outcome == "panic" {
-			vs = append(vs, Violation{Class: panicClass(t.Panic), Msg: t.Name + " panicked: " + t.Panic})
+			vs = append(vs, Violation{Class: panicClass(t.Panic) + ptag, Msg: t.Name + " panicked: " + t.Panic})
 		}
 	}
 	if len(vs) > 0 {
